@@ -326,6 +326,8 @@ namespace Givaro {
                 std::cerr << "GivBadFormat(Modular_implem::read: syntax error: no ',')) " << std::endl;
 
             s >> std::ws >> _p;
+            _pc = static_cast<Compute_t>(_p);
+            assign(const_cast<Element&>(mOne), static_cast<Element>(_p - static_cast<Residu_t>(1)));
 
             s >> std::ws >> ch;
             if (ch != ')')
